@@ -1034,6 +1034,18 @@ def _div_members(S, sform):
     if (sform in DIV_SFORMS_REAL + DIV_SFORMS_INT + ["ndarray-list-f32", "pyseq-list-npfloat32"] and not real) or \
             (sform in DIV_SFORMS_F32 and not f32) or (sform in DIV_SFORMS_INT and not integer):
         raise RuntimeError(f"harness: ensemble not representable as {sform}")
+    if sform in ("ndarray-list-per-member-dtype", "pyseq-list-per-member-type"):
+        # every member in the narrowest type that holds it exactly: int64 / float64 / complex128 (python int / float / complex)
+        out = []
+        for m in S:
+            rl = bool(np.all(m.imag == 0))
+            it = rl and bool(np.all(m.real == np.round(m.real)))
+            if sform.startswith("ndarray"):
+                out.append(np.array(m.real, dtype=np.int64) if it else np.array(m.real, dtype=np.float64) if rl
+                           else np.array(m, dtype=np.complex128))
+            else:
+                out.append([int(x) for x in m.real] if it else [float(x) for x in m.real] if rl else [complex(z) for z in m])
+        return out
     if sform == "ndarray-list-c128":
         return [np.array(s, dtype=np.complex128) for s in S]
     if sform == "ndarray-2d-c128":
@@ -1993,6 +2005,35 @@ def _diversity_precision_probes(ctx):
                                [float(x) for x in probs], "precision-probe", "list", reset=reset), count=False)
 
 
+def _diversity_mixed_member_types(ctx):
+    """Ensembles whose MEMBERS have different element types (a real or integer-valued state listed next to a genuinely complex
+    one), in both listing orders: a buffer typed after the first member would drop the imaginary parts of the later ones."""
+    r = ctx.nprng()
+    j = 0
+    for (n, k) in ((1, 2), (2, 2), (2, 3), (3, 3)):
+        dim = 2 ** n
+        for order in ("real-first", "complex-first", "int-first"):
+            cplx = [rand_state(r, n, "complex") for _ in range(k - 1)]
+            if order == "int-first":
+                first = np.zeros(dim, dtype=complex)
+                first[int(r.integers(dim))] = 1.0
+            else:
+                first = np.array(np.abs(r.normal(size=dim)) + 0.2, dtype=complex)
+                first[::2] *= -1
+                first = first / np.linalg.norm(first)
+            S = [first] + cplx if order != "complex-first" else cplx + [first]
+            for mode in _div_modes(n, k):
+                for sform in ("ndarray-list-per-member-dtype", "pyseq-list-per-member-type"):
+                    j += 1
+                    pkind = ["random", "omitted", "dyadic"][j % 3]
+                    P = [1 / k] * k if pkind == "omitted" else _div_pvec(r, k, pkind)
+                    c = _div_mk("ctor", mode, n, k, S, "mixed-member-types:" + order, sform, P,
+                                "uniform" if pkind == "omitted" else pkind, "omitted" if pkind == "omitted" else ["list", "ndarray-f64"][j % 2],
+                                tie=(mode == "classical"))
+                    ctx.count(f"diversity:member-types:{order}:{sform}")
+                    _div_case(ctx, c)
+
+
 def _diversity_flag_forms(ctx):
     """flag-form pass.  Options of MixedInitialize(params, initializer, opt_params, probabilities, label, reset, classical)
     and of the static initialize(q_circuit, ensemble, qubits, opt_params, probabilities):
@@ -2073,6 +2114,7 @@ def run_diversity(ctx):
     _diversity_phase(ctx)
     _diversity_call_forms(ctx)
     _diversity_flag_forms(ctx)
+    _diversity_mixed_member_types(ctx)
     _diversity_sizes(ctx)
     _diversity_reject(ctx)
 
